@@ -157,6 +157,20 @@ CLAIMED['C14'] = dict(
          'posterior is untouched.',
     design_ref='3 (C14)')
 
+CLAIMED['C11'] = dict(
+    technique='relational bounded symbolic execution: the real step run '
+              'twice from one symbolic state and environment, differing in '
+              'one invisible setting; post-states compared as terms; '
+              'determinism taint of generators',
+    text='For every path of the compared steps the solver-explored '
+         'post-states, return values and likelihood argument sequences are '
+         'term-identical between scalar/vectorised, pool/no pool, '
+         'verbose/quiet, file/no file and with/without accessor calls; '
+         'symbolic state covers all seeds and likelihoods. Worker '
+         'scheduling of a real pool is a trusted contract, not decided '
+         'here.',
+    design_ref='3 (C11)')
+
 NOT_APPLICABLE = {
     'C04': 'statement about the distribution of whole-program outputs over '
            'seed ensembles; no bounded symbolic input space decides it '
